@@ -951,13 +951,20 @@ class SetIndex(BaseSetIndexSortValues):
             ):
                 presorted = True
             else:
-                presorted = _get_divisions(
-                    self.frame,
-                    self.other,
-                    self._npartitions_input,
-                    self.ascending,
-                    upsample=self.upsample,
-                )[3]
+                # The divisions describe the partitions of the frame only if
+                # they were derived from them (``mins + [maxes[-1]]``). With a
+                # different requested partition count they are quantiles, which
+                # can have the same length after dropping duplicates
+                presorted = (
+                    _get_divisions(
+                        self.frame,
+                        self.other,
+                        self._npartitions_input,
+                        self.ascending,
+                        upsample=self.upsample,
+                    )[3]
+                    and self._npartitions_input == self.frame.npartitions
+                )
 
             if presorted and self.npartitions == self.frame.npartitions:
                 index_set = SetIndexBlockwise(
